@@ -578,6 +578,9 @@ def check_one(rep, drv, case, r):
 CORPUS = [
     # minimized witnesses of repaired defects (run first): (type, value)
     ("bits", "(bits -)"),                                                       # T8a '' not '0'
+    ("bits", "(bits 0)"), ("bits", "(bits 0000)"), ("bits", "(bits 0000000000000)"),   # all-zero, not empty
+    ("(seq (r int) (r bits) (o bool))", "(seq (i 7) (bits 00000000) absent)"),
+    ("(seqof bits)", "(of (bits 0) (bits -) (bits 00) (bits 1))"),
     ("(seq (r (tag i c 0 bits)) (o int))", "(seq (bits -) absent)"),
     ("(seqof int)", "(of (i 1) (i 2))"),                                        # T8b options -> append
     ("(seq (r int) (o (str 4)))", "(seq (i 1) absent)"),                        # E4 OPTIONAL key absent (ber SequenceEncoder)
